@@ -28,6 +28,18 @@ CHECKS = {
    note="Trusted: Coq kernel, hand model tied by correspondence, translator T2. The interrupt is raised synchronously by a user callback; OS signal delivery and worker-process behaviour are explored by the search only (partial for the multi-process clause).",
    technique="Coq proof (prefix decomposition of a fold with an absorbing stop state) + fault-point correspondence against the real sampler + search",
    design="5/C15"),
+ "C09": dict(
+   cat="proof",
+   text="Coq theorems (no axioms): (1) cache_transparent - in the model of ChainState and the two memoising decorators (Model/StateCache.v: shared dependency tables, registration on absence, invalidation on assignment, shallow cache copies, read-only copies, pickling that drops callable entries, auxiliary outputs), for any methods whose transitive reads lie within their declared dependencies and ANY history of assignments, copies, pickles and calls over any number of states, every call returns the from-scratch value; (2) deps_sound_table - the declared dependencies of every cached method of every concrete system class, regenerated from src/mici/systems.py by translator T4 on every run (method resolution along the MRO, transitive reads through self/super calls), satisfy that hypothesis (decided by vm_compute over the finite generated tables), hence (3) system_cache_transparent for all ten classes. Ties: T4 (its MRO / resolution compared with the live classes); the cache model is compared with real ChainState objects and the real decorators on random histories (values and evaluation counts); a search runs random histories on every real system class against fresh states and integrator steps with caching defeated.",
+   note="Trusted: Coq kernel, translator T4 (fail closed), hand model of states.py tied by correspondence. Assumed: a method's value depends only on the state variables it syntactically (transitively) reads and on immutable system attributes; both system objects alive (no id() reuse); values immutable (in-place mutation of arrays shared between a state and a copy's cache is outside the model).",
+   technique="Coq proof (invariant over operation histories) + table soundness by vm_compute on a model regenerated from source + correspondence against real ChainState + search",
+   design="5/C09"),
+ "C18": dict(
+   cat="proof",
+   text="Coq theorems (no axioms) about the cache model Model/StateCache.v, in any reachable heap: a second call on the same state, a call on a copy (read-only or not) or on the original after copying, a call after assigning a variable that no producing method declares, and a request for an auxiliary output after the method returned it, evaluate nothing (second_call_free, copy_call_free, assign_unrelated_free, aux_outputs_free); leapfrog_grad_count: n steps cost n+1 gradient evaluations cold and n warm for every n (focused call-pattern model). Tie: evaluation counts of the model vs real ChainState + decorators on random histories; search counts user-callback invocations for every cached method x scenario x return convention, for explicit integrator trajectories and all four transition types.",
+   note="Trusted: Coq kernel, hand models tied by correspondence / call-count search, translator T4 (declared dependencies used to pick unrelated variables). Known finding G15 (dynamic transitions re-evaluate the gradient at a cold start position once per direction) is re-observed and listed in known_findings.json.",
+   technique="Coq proof over the cache state machine + evaluation-count correspondence + call-count search",
+   design="5/C18"),
 }
 
 NOT_YET = "check not built yet in this round (design in DESIGN.md section 5); no claim is made"
